@@ -1,10 +1,11 @@
 """C05 — command sequences acknowledge every packet once and stop at the final packet."""
 import itertools
-from .. import common as C, structs as S, valgen as V, seqgen as G
+from .. import common as C, structs as S, valgen as V, seqgen as G, clientgen as CG
+from . import c11
 
 LEAN_MODULES = ["ZvtVerif.Properties.C05"]
 ASSUMPTIONS = ["scripted terminal: releases acknowledgement + first reply after the command, then one item per client packet (reply i+1 only after reply i was answered)",
-               "WriteFile (own into_stream) is covered by C11"]
+               "WriteFile (own into_stream): well-formed upload scripts over several files here; malformed requests and the file table under C11"]
 
 
 def run(ctx, out):
@@ -45,18 +46,23 @@ def run(ctx, out):
             ops.append(f"seq {s['name']} {cmd.hex()} " + ",".join(i.hex() for i in items))
             ev, done = G.expected_events(cmd, 3, sc, finals, once)
             want.append(" / ".join(ev + ["end"]))
+    # the firmware upload loop (its own into_stream): every data request answered exactly once with the requested block
+    wops, wwant, _ = c11.gen_cases(spec, CG.Packets(spec), rng, 400 if thorough else 80, thorough, wellformed=True)
+    ops += wops
+    want += [w if w.endswith("end") else w for w in wwant]
     impl, model = ctx.pair(ops)
     out.compare("seq(well-formed)", ops, impl, model)
     out.evaluations = len(ops)
     for o, r, w in zip(ops, impl, want):
-        out.count(o.split()[1])
+        out.count(o.split()[1] if o.startswith("seq ") else "feig::sequences::WriteFile")
         out.nontrivial.add(o)
         if r != w:
             i = next((j for j in range(min(len(r), len(w))) if r[j] != w[j]), min(len(r), len(w)))
             out.oracle_failures.append({"op": o[:400], "observed": "…" + r[max(0, i - 80):i + 160], "expected": "…" + w[max(0, i - 80):i + 160], "key": o[:200],
-                                        "what": f"{o.split()[1]}: not (command once, ack read, each reply read-answered-yielded in order, end right after the first final packet, nothing read behind it)"})
+                                        "what": f"{o.split()[1] if o.startswith('seq ') else 'feig::sequences::WriteFile'}: not (command once, ack read, each reply read-answered-yielded in order, end right after the first final packet, nothing read behind it)"})
     out.rule = (f"all {len(spec['sequences'])} `impl Sequence` exchanges x reply scripts over each command's reply alphabet (2 canonical packets per variant): bounded-exhaustive up to depth {depth} "
                 "(sampled to 300 prefixes per length when larger), random deeper scripts up to 13 replies, random bytes or whole packets queued behind the final packet; the ordered event log "
                 "(writes with bytes, reads with byte counts, yields, end) of the real into_stream against the scripted in-memory terminal equals the model's and the independently computed expectation. "
-                "non-trivial = distinct (sequence, script)")
+                "Plus the firmware upload loop (WriteFile::into_stream): payload directories with several files x request walks over them (sequential, round-robin, continuing in another file) "
+                "ended by completion or abort with bytes queued behind: each request answered exactly once with the requested block of the requested file. non-trivial = distinct (sequence, script)")
     out.samples = [ops[0][:300], {"op": ops[len(ops)//2][:200], "impl": impl[len(ops)//2][:300]}]
